@@ -173,6 +173,8 @@ def make_case(rng, maxdeg, nitv, budget=2500):
     while len(itvs) < nitv:
         a, b = rand_end(rng, pts), rand_end(rng, pts)
         if a == b:
+            if rng.random() < 0.6:
+                itvs.append(fmt_itv(a, 0, a, 0))       # the point interval [a,a]
             continue
         if a > b:
             a, b = b, a
